@@ -285,7 +285,7 @@ class FilterDriver(explore.Driver):
         except AttributeError:
             # refactored internals: fall back to "history = state"
             st._hist_id = getattr(st, "_hist_id", object())
-            priv = id(st)
+            priv = explore.unique_token()
         return (cf(cfg), flt.manual.tobytes(), priv, st.applied,
                 tuple(sorted((i, st.pvar[i], st.pfs[i].inverted)
                              for i in st.pfs)))
